@@ -756,7 +756,7 @@ class RestAPI(object):
                     return aws_error("StateMachineDoesNotExist"), 400
 
                 status_filter = params.get("statusFilter")
-                if status_filter and status_filter not in {
+                if not isinstance(status_filter, str) or status_filter not in {
                     "RUNNING",
                     "SUCCEEDED",
                     "FAILED",
